@@ -129,6 +129,10 @@ pub enum ReqSpec {
         error_option: Option<u8>,
         /// 0 test-then-set 1 set 2 test-only
         test_option: Option<u8>,
+        /// the order in which the caller makes the five builder calls (a permutation code; 0 =
+        /// target, config/url, default-operation, error-option, test-option)
+        #[serde(default)]
+        order: u8,
     },
     CopyConfig {
         target: Option<Ds>,
@@ -191,6 +195,19 @@ pub enum ReplyKind {
     Load,
 }
 
+/// the `code`-th permutation of 0..n (factorial number system; 0 = identity)
+pub fn permutation(n: u8, code: usize) -> Vec<u8> {
+    let mut calls: Vec<u8> = (0..n).collect();
+    let mut code = code;
+    let mut seq = Vec::new();
+    while !calls.is_empty() {
+        let i = code % calls.len();
+        code /= calls.len();
+        seq.push(calls.remove(i));
+    }
+    seq
+}
+
 impl ReqSpec {
     pub fn op_name(&self) -> &'static str {
         match self {
@@ -242,6 +259,7 @@ impl ReqSpec {
                 default_operation: None,
                 error_option: None,
                 test_option: None,
+                order: 0,
             },
             Self::CopyConfig {
                 target: Some(Ds::Candidate),
@@ -386,35 +404,49 @@ where
             default_operation,
             error_option,
             test_option,
+            order,
         } => ex!(EditConfig<Opaque>, move |mut b| {
-            if let Some(t) = target {
-                b = b.target(t.to_lib())?;
-            }
-            match source {
-                Some(CfgOrUrl::Config(c)) => b = b.config(Opaque::from(c)),
-                Some(CfgOrUrl::Url(u)) => b = b.url(u)?,
-                None => {}
-            }
-            if let Some(d) = default_operation {
-                b = b.default_operation(match d {
-                    0 => DefaultOperation::Merge,
-                    1 => DefaultOperation::Replace,
-                    _ => DefaultOperation::None,
-                });
-            }
-            if let Some(e) = error_option {
-                b = b.error_option(match e {
-                    0 => ErrorOption::StopOnError,
-                    1 => ErrorOption::ContinueOnError,
-                    _ => ErrorOption::RollbackOnError,
-                })?;
-            }
-            if let Some(t) = test_option {
-                b = b.test_option(match t {
-                    0 => TestOption::TestThenSet,
-                    1 => TestOption::Set,
-                    _ => TestOption::TestOnly,
-                })?;
+            let mut source = source;
+            for c in permutation(5, order as usize) {
+                match c {
+                    0 => {
+                        if let Some(t) = target {
+                            b = b.target(t.to_lib())?;
+                        }
+                    }
+                    1 => match source.take() {
+                        Some(CfgOrUrl::Config(c)) => b = b.config(Opaque::from(c)),
+                        Some(CfgOrUrl::Url(u)) => b = b.url(u)?,
+                        None => {}
+                    },
+                    2 => {
+                        if let Some(d) = default_operation {
+                            b = b.default_operation(match d {
+                                0 => DefaultOperation::Merge,
+                                1 => DefaultOperation::Replace,
+                                _ => DefaultOperation::None,
+                            });
+                        }
+                    }
+                    3 => {
+                        if let Some(e) = error_option {
+                            b = b.error_option(match e {
+                                0 => ErrorOption::StopOnError,
+                                1 => ErrorOption::ContinueOnError,
+                                _ => ErrorOption::RollbackOnError,
+                            })?;
+                        }
+                    }
+                    _ => {
+                        if let Some(t) = test_option {
+                            b = b.test_option(match t {
+                                0 => TestOption::TestThenSet,
+                                1 => TestOption::Set,
+                                _ => TestOption::TestOnly,
+                            })?;
+                        }
+                    }
+                }
             }
             b.finish()
         }),
@@ -463,15 +495,7 @@ where
             order,
         } => ex!(Commit, move |mut b| {
             // the four builder calls in the order the case asks for
-            let mut calls: Vec<u8> = vec![0, 1, 2, 3];
-            let mut code = order as usize;
-            let mut seq = Vec::new();
-            while !calls.is_empty() {
-                let i = code % calls.len();
-                code /= calls.len();
-                seq.push(calls.remove(i));
-            }
-            for c in seq {
+            for c in permutation(4, order as usize) {
                 match c {
                     0 => {
                         if let Some(c) = confirmed {
